@@ -350,3 +350,7 @@ def run(ctx):
     r4_key_identity(ctx)
     r5_endpoint_whitelist(ctx)
     r6_injective_name(ctx)
+
+
+from .selftest import for_families as _ff  # noqa: E402
+selftest = _ff(['slice', 'taint'])
